@@ -4,6 +4,7 @@ import random
 from fractions import Fraction
 
 from vmon import gens as G
+from vmon.gens import THOROUGH_SCALE as TS
 from vmon import oracles as O
 
 PID = "C02"
@@ -258,7 +259,7 @@ def generate(tier, seed):
     yield "table", {"rows": [["", "AB"], ["A", "B"], ["AB", ""]], "cols": ["x", "y"], "kinds": ["str", "str"]}, True
     yield "table", {"rows": [["A", None], ["A", None], ["A", "B"], [None, "A"]], "cols": ["x", "y"], "kinds": ["str", "str"]}, True
     yield "table", {"rows": [[1, "1"], [1, "1"], [11, ""], [1, "11"]], "cols": ["x", "y"], "kinds": ["num", "str"]}, True
-    n_tab = 4000 if thorough else 220
+    n_tab = 4000 * TS if thorough else 220
     for i in range(n_tab):
         nrows = rng.randint(2, 40)
         ncols = rng.randint(1, 4)
@@ -285,7 +286,7 @@ def generate(tier, seed):
                             r[ci] = "A"
             p["rows2"] = rows2
         yield "table", p, i < 60
-    n_leg = 300 if thorough else 30
+    n_leg = 300 * TS if thorough else 30
     for i in range(n_leg):
         n = rng.randint(2, 25)
         alpha = [rng.choice(CELLS_NOEMPTY) for _ in range(n)]
@@ -299,7 +300,7 @@ def generate(tier, seed):
             p["beta2"] = [rng.choice(CELLS_NOEMPTY) for _ in range(m)]
         yield "legacy", p, i < 10
     # random larger samples
-    n_s = 3000 if thorough else 200
+    n_s = 3000 * TS if thorough else 200
     for i in range(n_s):
         n = rng.randint(2, 200)
         kcat = rng.randint(1, max(1, n // 2))
